@@ -58,7 +58,10 @@ def run_labels_unique(x):
 
 
 def gen_track_labels(args):
-    yield from args["inputs"]
+    for x in args["inputs"]:
+        yield x
+        # the same solution with a track_id attribute already stored on the nodes - one shared, lineage-style id
+        yield dict(x, stid=1)
 
 
 SEGS_TL = [[[1, 2], [1, 2], [1, 2]], [[1, 0], [2, 1], [0, 2]], [[1, 1], [2, 2], [2, 1]], [[2, 1], [0, 0], [1, 2]]]
@@ -72,7 +75,8 @@ def run_track_labels(x):
     T, PX = seg.shape
     g = nx.DiGraph()
     for n in x["nd"]:
-        g.add_node(n, time=(n - 1) // K, seg_id=((n - 1) % K) + 1)
+        extra = {"track_id": 4} if x.get("stid") else {}
+        g.add_node(n, time=(n - 1) // K, seg_id=((n - 1) % K) + 1, **extra)
     g.add_edges_from([tuple(e) for e in x["E"]])
     out = relabel_segmentation_with_track_id(g, seg.reshape(T, 1, PX)).reshape(T, PX)
     x["out"] = [[int(v) for v in row] for row in out]
@@ -310,8 +314,14 @@ def run_relabel(x):
 
 # ------------------------------------------------------------------------------- C12
 INT_IDS = [3, 7, 8, 12]
+BIG_IDS = [2 ** 53 + 1, 2 ** 53 + 2, 2 ** 53 + 3, 2 ** 53 + 5]
 STR_IDS = ["a", "b", "c", "d"]
 UNKNOWN = 99
+
+
+def nx_relabel(g, back):
+    import networkx as nx
+    return nx.relabel_nodes(g, {n: back.get(int(n), -5) for n in g.nodes}, copy=True)
 
 
 def gen_import(args):
@@ -340,6 +350,10 @@ def run_import(x):
     from funtracks.import_export.csv._import import tracks_from_df
     R, kind = x["R"], x["kind"]
     pool = INT_IDS if kind == "int" else STR_IDS
+    big = x["mapkind"] == "bigids" and kind == "int"
+    if big:
+        # ids that float64 cannot tell apart; the result is reported in the ordinary ids of Import.tla
+        pool = BIG_IDS
     unknown = 99 if kind == "int" else "zz"
     # an empty CSV cell is NaN once read; a literal "" only occurs in columns of string ids
     none = {"-1": -1, "nan": None, "empty": "" if kind == "str" else None}[x["noneenc"]]
@@ -351,6 +365,7 @@ def run_import(x):
     off = 0.5 if x["mapkind"] == "mixed" else 0.0
     names = {"identity": {"time": "time", "id": "id", "parent_id": "parent_id", "y": "y", "x": "x", "c": "c"},
              "mixed": {"time": "time", "id": "id", "parent_id": "parent_id", "y": "y", "x": "x", "c": "c"},
+             "bigids": {"time": "time", "id": "id", "parent_id": "parent_id", "y": "y", "x": "x", "c": "c"},
              "reindexed": {"time": "time", "id": "id", "parent_id": "parent_id", "y": "y", "x": "x", "c": "c"},
              "renamed": {"time": "t", "id": "ident", "parent_id": "par", "y": "Y", "x": "X", "c": "my_custom"}}[x["mapkind"]]
     df = pd.DataFrame({names["time"]: x["time"], names["id"]: ids, names["parent_id"]: par,
@@ -407,6 +422,10 @@ def run_import(x):
         nodes.append([int(n), int(a["time"]), int(round(float(pos[0]))) if float(pos[0]).is_integer() else -1,
                       int(round(px)) if px.is_integer() else -1,
                       int(a["custom"]) if a.get("custom") is not None else -1])
+    if big:
+        back = {b: i for b, i in zip(BIG_IDS, INT_IDS)}
+        g = nx_relabel(g, back)
+        nodes = [[back.get(r[0], -5), *r[1:]] for r in nodes]
     x["err"] = "ok"
     x["tids"] = [[int(n), int(a["track_id"]) if a.get("track_id") is not None else -1] for n, a in g.nodes(data=True)]
     x["lids"] = [[int(n), int(a["lineage_id"]) if a.get("lineage_id") is not None else -1] for n, a in g.nodes(data=True)]
